@@ -6,9 +6,15 @@ package basestream
 //
 // Assumed of the application's locator and payload types (they are inputs of the seeder): Compare and the payload
 // sizes are functions of the value, Inc returns a locator.
+//@ // the latest Inc call is recorded: its receiver and its result
+//@ ghost gIncArg Locator
+//@ ghost gIncRes Locator
 //@ iface Locator.Compare
 //@   pure
 //@ iface Locator.Inc
+//@   modifies gIncArg, gIncRes
+//@   ghost gIncArg = self
+//@   ghost gIncRes = result
 //@   ensures result != nil
 //@ iface Payload.Len
 //@   pure
